@@ -3,42 +3,61 @@
 // Contracts for package account (machine-checked by /verif/engine; comment-only file).
 package account
 
-//@ def validAccount(a *Account) bool := a != nil && 0 <= a.accountType && a.accountType <= 4
+//@ def validAccount(a *Account) bool := a != nil && 0 <= a.accountType && a.accountType <= 4 && len(a.segments) >= 1
 //@ def isAL(a *Account) bool := a.accountType == 0 || a.accountType == 1
 //@ def isIE(a *Account) bool := a.accountType == 3 || a.accountType == 4
 //
-// The registry is trusted: it hands out valid, non-nil accounts and touches only its own tables.
-//@ func (*Registry).Create
-//@   trusted
-//@   modifies as.index[*], as.swaps[*]
-//@   ensures result.1 == nil ==> validAccount(result.0)
-//
+// The registry: the table lookups Get/GetPath (locks, the multimap tree, strings.Split/Join) are
+// trusted to hand out valid accounts and to touch only the registry's index and tree - in particular
+// NOT the swaps cache. Everything built on top of them is verified against these two contracts.
 //@ func (*Registry).Get
 //@   trusted
-//@   modifies as.index[*], as.swaps[*]
+//@   modifies as.index[*]
+//@   ensures result.1 == nil ==> validAccount(result.0) && len(result.0.segments) >= 1 && cap(result.0.segments) == len(result.0.segments)
+//
+//@ func (*Registry).GetPath
+//@   trusted
+//@   modifies as.index[*]
+//@   ensures result.1 == nil ==> validAccount(result.0) && len(result.0.segments) >= 1 && cap(result.0.segments) == len(result.0.segments)
+//
+//@ func (*Registry).Create
+//@   requires as != nil && inText(a.Range)
+//@   modifies as.index[*]
 //@   ensures result.1 == nil ==> validAccount(result.0)
 //
+// MustGet / MustGetPath panic on an invalid name (documented); otherwise they are the lookup.
 //@ func (*Registry).MustGet
-//@   trusted
-//@   modifies as.index[*], as.swaps[*]
-//@   ensures validAccount(result)
-//
-//@ func (*Registry).ValuationAccountFor
-//@   trusted
-//@   requires a != nil
-//@   modifies as.index[*], as.swaps[*]
-//@   ensures validAccount(result) && result.accountType == 3
+//@   panics
+//@   requires as != nil
+//@   modifies as.index[*]
+//@   ensures validAccount(result) && len(result.segments) >= 1 && cap(result.segments) == len(result.segments)
 //
 //@ func (*Registry).MustGetPath
-//@   trusted
-//@   modifies as.index[*], as.swaps[*]
-//@   ensures validAccount(result)
+//@   panics
+//@   requires as != nil
+//@   modifies as.index[*]
+//@   ensures validAccount(result) && len(result.segments) >= 1 && cap(result.segments) == len(result.segments)
 //
-//@ func (*Registry).SwapType
-//@   trusted
-//@   requires validAccount(a)
-//@   modifies as.index[*], as.swaps[*]
+// ValuationAccountFor: the result is always obtained by a by-name registry lookup (first "Income",
+// then the joined path); it neither reads a cache nor writes one (frame: swaps untouched), and the
+// segments of the given account are not written.
+//@ func (*Registry).ValuationAccountFor
+//@   requires as != nil && a != nil && len(a.segments) >= 1
+//@   modifies as.index[*]
+//@   callback MustGet=0
 //@   ensures validAccount(result)
+//@   ensures @lookup: tlen() == old(tlen()) + 2 && targ("MustGet", 0, old(tlen())) == "Income" && result == tres("MustGet", old(tlen()) + 1)
+//
+// SwapType: a cache hit returns the cached account, a miss looks the swapped name up and caches it
+// under the given account only.
+//@ func (*Registry).SwapType
+//@   panics
+//@   requires as != nil && validAccount(a) && as.swaps != nil
+//@   modifies as.index[*], as.swaps[*]
+//@   callback Get=0
+//@   ensures @hit: old(a in as.swaps) ==> result == old(as.swaps[a]) && tlen() == old(tlen()) && dom(as.swaps) == old(dom(as.swaps)) && vals(as.swaps) == old(vals(as.swaps))
+//@   ensures @miss: !old(a in as.swaps) ==> tlen() == old(tlen()) + 1 && result == tres("Get", old(tlen())) && validAccount(result)
+//@        && dom(as.swaps) == upd(old(dom(as.swaps)), a, true) && vals(as.swaps) == upd(old(vals(as.swaps)), a, result)
 //
 // A mapping is well formed when levels and suffixes are not negative (the flag parser must ensure it).
 //@ def wfMapping(m Mapping) bool := forall i int :: {m[i]} 0 <= i && i < len(m) ==> m[i].Level >= 0 && m[i].Suffix >= 0
@@ -63,7 +82,7 @@ package account
 // modified - in particular not the account's own segments (frame: only the registry tables change).
 //@ func Shorten$1
 //@   requires validAccount(a) && wfMapping(m) && reg != nil && len(a.segments) >= 1
-//@   modifies reg.index[*], reg.swaps[*]
+//@   modifies reg.index[*]
 //@   callback MustGetPath=0
 //@   ensures @nomatch: (forall i int :: {m[i]} 0 <= i && i < len(m) ==> !ruleMatches(m[i], a.name)) ==> result == a
 //@   ensures @hidden: (exists i int :: 0 <= i && i < len(m) && ruleMatches(m[i], a.name) && m[i].Level == 0
@@ -74,3 +93,7 @@ package account
 //@        && (forall k int :: {targ("MustGetPath", 0, old(tlen()))[k]} 0 <= k && k < m[i].Level ==> targ("MustGetPath", 0, old(tlen()))[k] == a.segments[k])
 //@        && (forall k int :: {targ("MustGetPath", 0, old(tlen()))[m[i].Level + k]} 0 <= k && k < m[i].Suffix ==> targ("MustGetPath", 0, old(tlen()))[m[i].Level + k] == a.segments[len(a.segments) - m[i].Suffix + k]))
 //@   ensures @lookup: tlen() <= old(tlen()) + 1 && (tlen() == old(tlen()) ==> result == a || result == nil)
+//@   ensures @short: (exists i int :: 0 <= i && i < len(m) && ruleMatches(m[i], a.name) && m[i].Level > 0 && m[i].Level + m[i].Suffix > len(a.segments)
+//@        && (forall j int :: {m[j]} 0 <= j && j < i ==> !ruleMatches(m[j], a.name))) ==> result == a && tlen() == old(tlen())
+//@   ensures @collapse: (exists i int :: 0 <= i && i < len(m) && ruleMatches(m[i], a.name) && m[i].Level > 0 && m[i].Level + m[i].Suffix <= len(a.segments)
+//@        && (forall j int :: {m[j]} 0 <= j && j < i ==> !ruleMatches(m[j], a.name))) ==> tlen() == old(tlen()) + 1 && result == tres("MustGetPath", old(tlen()))
